@@ -11,6 +11,7 @@ cls(
 fn(
     "hypercorn.protocol.h2:StreamBuffer.pop",
     params={"max_length": "int"},
+    returns="bytes",
     requires=[("pop.pre.nonneg", "max_length >= 0")],
     ensures=[
         ("pop.len", "len(result) == min(len(old(self.buffer)), max_length)", "C09,C02"),
